@@ -2,6 +2,8 @@ package wasp
 
 import (
 	"context"
+	"fmt"
+	"io"
 	"sync"
 	"time"
 
@@ -140,7 +142,7 @@ func (s *setupWorker) setup(ctx context.Context, m transport.Metadata) error {
 	c.SetReadDeadline(
 		time.Now().Add(connectTimeout),
 	)
-	firstPkt, err := s.decoder.Decode(c)
+	firstPkt, err := safeDecode(s.decoder, c)
 	if err != nil {
 		return err
 	}
@@ -262,10 +264,23 @@ type timeoutError interface {
 	Timeout() bool
 }
 
+// safeDecode reads one packet. The decoder indexes into client-supplied buffers without
+// checking their length and panics on truncated or oversized input; a panic in a connection
+// goroutine would take the whole broker down, so it is turned into a decoding error that
+// only ends the offending connection.
+func safeDecode(d *decoder.Sync, r io.Reader) (pkt packet.Packet, err error) {
+	defer func() {
+		if rec := recover(); rec != nil {
+			pkt, err = nil, fmt.Errorf("malformed packet: %v", rec)
+		}
+	}()
+	return d.Decode(r)
+}
+
 func (s *connectionWorker) processSession(ctx context.Context, session *sessions.Session) bool {
 	c := session.ReadWriter()
 	started := time.Now()
-	pkt, err := s.decoder.Decode(c)
+	pkt, err := safeDecode(s.decoder, c)
 	if err != nil {
 		return false
 	}
